@@ -27,7 +27,7 @@ Holding ==
     \/ (Cfg.k = "Roc" /\ Len(w) > Cfg.n /\ QIsZero(w[Len(w) - Cfg.n]))
 
 (* rounding noise granted by the statement: proportional to the largest magnitude seen *)
-Noise == QMul(QPow10Neg(9), QInt(Scope.maxmag))
+Noise == QMul(IF "eps" \in DOMAIN Scope THEN QFrac(Scope.eps[1], Scope.eps[2]) ELSE QPow10Neg(9), QInt(Scope.maxmag))     \* eps: 1e-5 for f32
 
 AgreeOK ==
     \/ Len(hist) < K(Cfg)
